@@ -23,14 +23,18 @@ Proof.
 Qed.
 Print Assumptions C05_shutdown_completes_refuted.
 
-(* FULL: "afterwards no actor remains registered". REFUTED: an address that is spawned again before the parent has
-   processed the previous holder's termination notice is removed from the parent's children by that notice; the
-   parent then terminates without it. (Open finding C05-respawn-before-parent-notified.) *)
+(* FULL: "afterwards no actor remains registered". REFUTED: an actor that spawns a child while handling its own
+   OnTerminated (the last handler of its life: it is already marked terminated and is unregistered right after) leaves
+   that child behind: nobody waits for it, it is still registered and alive when the system has closed.
+   (Open finding C05-spawn-in-own-onterminated-leaks-child.) The two earlier witnesses of this clause — a stale
+   termination notice (address re-used, or a watch request answered before the spawn) making the parent forget a living
+   child — were repaired in the code and in the model (drop_child). *)
 Theorem C05_registry_empty_after_shutdown_refuted :
-  exists roles ls s os, krun roles kinit ls = Some (s, os) /\ closed s = true /\ lookup 0 (registry s) <> None.
+  exists roles ls s os, krun roles kinit ls = Some (s, os) /\ closed s = true /\ lookup 1 (registry s) <> None.
 Proof.
-  exists [ {| victim := Some DStop; sup := []; rules := [] |} ],
-         [LSpawn 0 0; LRun 2; LTerm 0 false; LRun 2; LSpawn 0 0; LRun 0; LRun 3; LShutdown false; LRun 0; LRun 1; LRun 0].
+  exists [ {| victim := None; sup := [DStop]; rules := [ {| r_on := KTS; r_n := -1; r_inst := -1; r_do := [ASpawn 1 1] |} ] |};
+           {| victim := None; sup := []; rules := [] |} ],
+         [LSpawn 0 0; LRun 2; LShutdown false; LRun 0; LRun 1; LRun 0; LRun 2; LRun 0; LRun 3].
   eexists. eexists. split; [vm_compute; reflexivity|]. split; [vm_compute; reflexivity|]. vm_compute. discriminate.
 Qed.
 Print Assumptions C05_registry_empty_after_shutdown_refuted.
